@@ -20,7 +20,7 @@
    contradict itself on committees_at_slot / committee length.
    Every theorem quantifies over ALL duty lists (any slots before, at and after the current one,
    any number of committees and validators per committee, any order), all digests, sizes, targets. *)
-From Verif Require Import Lib.Base Model.C14_Subscriptions Model.C14_Spec Proofs.C14 Check.C14 Proofs.C14_Check.
+From Verif Require Import Lib.Base Model.C14_Subscriptions Model.C14_Spec Proofs.C14 Check.C14 Proofs.C14_Check Proofs.C14_During.
 From Coq Require Import Sorting.Permutation.
 
 (* ------------------------------------------------------------------------------------------- *)
@@ -462,6 +462,86 @@ Qed.
 Print Assumptions C14_pinned_aggregate_refuted.
 
 (* ------------------------------------------------------------------------------------------- *)
+(* Operations that complete while the attest is waiting for attester.Attest (added after seeded
+   change C14-5).  AttestAndScheduleAggregate calls Attest and only then looks the epoch's
+   information up; a subscribe of the epoch that completes meanwhile (start-up part-way through a
+   slot; the re-subscribe of a reorganisation) is therefore the one that decides.  A history is a
+   list of [hop]s: [HDuring mid o] says that the operations [mid] completed while [o] was waiting
+   for its outside call; [linearise] puts them where they take effect.                           *)
+
+(* The state in which the waiting attest schedules its jobs is the state after everything that
+   completed during Attest. *)
+Theorem C14_attest_schedules_in_state_after_attest_returns :
+  forall pr hs mid o,
+    fst (run pr init (linearise (hs ++ [HDuring mid o]))) =
+    fst (step pr (fst (run pr init (linearise hs ++ mid))) o).
+Proof. exact during_attest_state. Qed.
+Print Assumptions C14_attest_schedules_in_state_after_attest_returns.
+
+(* The property for that shape: whatever happened before ([hs]) and whatever else completes while
+   Attest is in flight ([mid1] before, [mid2] after -- the latter leaving the epoch's information
+   alone), a subscribe of the epoch that completes during Attest makes every attested committee
+   with a selected validator of ours get exactly one aggregation job. *)
+Theorem C14_subscribe_during_attest_every_selected_committee_gets_job :
+  forall pr hs mid1 ep cur1 sign_fail duties mid2 dslot cur no_acct atts a d,
+    ep + 1 < two64 -> Forall (keeps pr ep) mid2 -> dslot / spe pr = ep ->
+    consistent_duties duties -> digests_ok duties ->
+    In a atts -> cur <= a_slot a ->
+    duty_for (sign_ok_of sign_fail) duties (a_slot a) (a_comm a) d -> selected (agg_target pr) d = true ->
+    (forall d', duty_for (sign_ok_of sign_fail) duties (a_slot a) (a_comm a) d' ->
+                selected (agg_target pr) d' = true -> acct_ok_of no_acct (d_val d') = true) ->
+    let returned := fst (run pr init (linearise hs ++ mid1 ++ OSub ep cur1 false false sign_fail duties :: mid2)) in
+    let final := fst (run pr init (linearise (hs ++
+                   [HDuring (mid1 ++ OSub ep cur1 false false sign_fail duties :: mid2)
+                            (OAtt dslot cur false no_acct atts)]))) in
+    (forall j, In j (st_jobs returned) -> In j (st_jobs final)) /\
+    exists j, In j (st_jobs final) /\ jkey j = akey a /\
+      (forall j', In j' (st_jobs final) -> jkey j' = akey a -> j' = j) /\
+      j_time j = a_slot a * slot_ms pr + delay_ms pr /\ j_dslot j = a_slot a /\
+      (~ In (akey a) (map jkey (st_jobs returned)) ->
+         (exists d', duty_for (sign_ok_of sign_fail) duties (a_slot a) (a_comm a) d' /\
+                     selected (agg_target pr) d' = true /\ j_val j = d_val d' /\ j_sig j = d_sig d') /\
+         exists a', In a' atts /\ akey a' = akey a /\ j_root j = a_root a').
+Proof.
+  intros pr hs mid1 ep cur1 sign_fail duties mid2 dslot cur no_acct atts a d B K E C G Ha Hc Hd Hs Hacct returned final.
+  assert (F : final = fst (step pr returned (OAtt dslot cur false no_acct atts))).
+  { unfold final, returned. apply during_attest_state. }
+  assert (R : returned = fst (run pr init ((linearise hs ++ mid1) ++ OSub ep cur1 false false sign_fail duties :: mid2))).
+  { unfold returned. rewrite <- app_assoc. reflexivity. }
+  rewrite F, R.
+  destruct (C14_history_every_selected_committee_gets_job pr (linearise hs ++ mid1) ep cur1 sign_fail duties mid2
+              dslot cur no_acct atts a d B K E C G Ha Hc Hd Hs Hacct) as (_ & P & Q).
+  split; [exact P|exact Q].
+Qed.
+Print Assumptions C14_subscribe_during_attest_every_selected_committee_gets_job.
+
+(* The other order -- the information looked up BEFORE calling Attest, i.e. the waiting attest
+   placed before what completes meanwhile ([linearise_snapshot]) -- is refuted: whenever nothing is
+   held for the epoch when the attestation job starts, it schedules nothing, whatever is stored
+   while Attest is in flight; witness: validator 7 is the selected aggregator of committee 1 of
+   slot 5, the subscribe of epoch 0 completes during Attest, the code's order makes the job. *)
+Theorem C14_lookup_before_attest_refuted :
+  (forall pr hs mid dslot cur attest_fail no_acct atts,
+     Forall (fun o => match o with OAtt _ _ _ _ _ => False | _ => True end) mid ->
+     get_info (dslot / spe pr) (st_infos (fst (run pr init (linearise_snapshot hs)))) = None ->
+     st_jobs (fst (run pr init (linearise_snapshot (hs ++ [HDuring mid (OAtt dslot cur attest_fail no_acct atts)])))) =
+     st_jobs (fst (run pr init (linearise_snapshot hs)))) /\
+  (let pr := mkParams 12000 8000 32 16 in
+   let d := mkDuty 7 5 1 1 1 0 9 [0; 0; 0; 0; 0; 0; 0; 0] in
+   let hs := [HDuring [OSub 0 5 false false [] [d]] (OAtt 5 5 false [] [mkAtt 5 1 3])] in
+   selected 16 d = true /\
+   st_jobs (fst (run pr init (linearise hs))) = [mkJob 5 1 68000 5 3 7 9] /\
+   st_jobs (fst (run pr init (linearise_snapshot hs))) = []).
+Proof.
+  split.
+  - intros pr hs mid dslot cur af no_acct atts NA H.
+    rewrite during_snapshot_state, run_app_fst, run_cons, attest_without_info by exact H.
+    apply run_no_att_jobs. exact NA.
+  - vm_compute. repeat split; reflexivity.
+Qed.
+Print Assumptions C14_lookup_before_attest_refuted.
+
+(* ------------------------------------------------------------------------------------------- *)
 (* Non-vacuity: the hypotheses of the theorems above are satisfiable by non-trivial inputs.    *)
 
 Ltac in_cases H := repeat (destruct H as [<-|H]; [|]); [..|destruct H].
@@ -515,4 +595,14 @@ Example C14_example_heads :
   infos (subs ++ [OHead 3 3]) = [0; 1] /\ infos (subs ++ [OHead 9 9]) = [0; 1] /\
   infos (subs ++ [OHead 16 16]) = [1] /\ infos (subs ++ [OHead 40 16]) = [0; 1] /\
   filter (fun ep => negb (stale64_by_subtraction ep 0)) [0; 1] = [].
+Proof. vm_compute. repeat split; reflexivity. Qed.
+
+(* a subscribe of epoch 9 completing while the attest of slot 72 waits for Attest: the same two
+   jobs as when it had completed before; looked up before Attest there would have been none *)
+Example C14_example_during :
+  let hs := [ HDuring [OSub 9 72 false false [] ex_duties2] (OAtt 72 72 false [] ex_atts) ] in
+  linearise hs = [ OSub 9 72 false false [] ex_duties2; OAtt 72 72 false [] ex_atts ] /\
+  st_jobs (fst (run ex_pr init (linearise hs))) =
+    [ mkJob 72 0 872000 72 9000 40 2001; mkJob 72 1 872000 72 9001 41 2002 ] /\
+  st_jobs (fst (run ex_pr init (linearise_snapshot hs))) = [].
 Proof. vm_compute. repeat split; reflexivity. Qed.
